@@ -142,3 +142,29 @@ def normalise_ext(direction: str, key: Term, domain: Term) -> Tuple[Term, Term]:
         return t_scale(("ext", direction, domain, atom), co), c
     flipped = "min" if direction == "max" else "max"
     return t_scale(("ext", flipped, domain, atom), co), c
+
+
+def _unvar(t: Term) -> Term:
+    while t[0] == "var" and len(t) == 4:
+        t = t[3]
+    return t
+
+
+def fuse_comprehensions(t):
+    """``[f(y) for y in [g(x) for x in D if c] if d]``  ->  ``[f(g(x)) for x in D if c if d(g(x))]`` (bottom-up, through local names of
+    comprehension values).  A comprehension over a comprehension ranges over the inner domain."""
+    if not isinstance(t, tuple) or not t:
+        return t
+    t = tuple(fuse_comprehensions(x) if isinstance(x, tuple) else x for x in t)
+    if t[0] == "comp" and len(t[3]) == 1:
+        dom, conds = t[3][0]
+        inner = _unvar(dom)
+        if inner[0] == "comp" and inner[1] == "list" and len(inner[3]) == 1:
+            outer_bound = None
+            for b in subterms(t[2], lambda x: x[0] == "bound" and x[3] == show(dom)) + [b for c in conds for b in subterms(c, lambda x: x[0] == "bound" and x[3] == show(dom))]:
+                outer_bound = b
+            mp = {outer_bound: inner[2]} if outer_bound is not None else {}
+            elt = subst(t[2], mp)
+            conds2 = tuple(inner[3][0][1]) + tuple(subst(c, mp) for c in conds)
+            return ("comp", t[1], elt, ((inner[3][0][0], conds2),))
+    return t
